@@ -18,6 +18,7 @@ tbl read  <filter> <cmp> <verify:0|1> <file hex> <op> …                       
 tbl handles <filter> <cmp> <file hex>      → d:<off>:<len> … [f:<off>:<len>] m:<off>:<len> i:<off>:<len>
 tbl raw <verify:0|1> <file hex> <offset> <length>                                       → ok:<payload hex> | corrupt
 tbl block <restartInterval> <k1> <v1> …                                                 → <block hex>
+tbl snappy <hex>                          → ok:<decoded hex> | corrupt     (`snappy.Decode`, block format)
 tbl crc <hex>                                                                           → <masked crc32c>
 ```
 `<filter>` is `none` or `bloom<bitsPerKey>`.
@@ -203,6 +204,11 @@ def handleTbl : List String → Option String
   | "block" :: ri :: kvs => do
     let ri ← parseNat? ri; let kvs ← parseKVs kvs
     pure (toHexField (Block.build ri kvs))
+  | ["snappy", b] => do
+    let b ← fromHex b
+    match Snappy.decode b with
+    | some d => pure s!"ok:{toHexField d}"
+    | none => pure "corrupt"
   | ["crc", b] => do
     let b ← fromHex b
     pure (toString (maskedCrc b))
